@@ -326,6 +326,110 @@ def memoKeysCover (scanned : List (String × String × String × String × List 
   scanned.all fun r => r.2.2.2.2.1.all fun p =>
     r.2.2.2.2.2.contains p || memoKeyWaivers.contains (r.1, r.2.1, r.2.2.1, p)
 
+/-! ### The registry of interpreter-global state the checker reads
+
+pyanalyze's own caches are not the only state that outlives a check: the interpreter's `sys.modules`,
+`sys.path`, `os.environ` do too. One row per place where pyanalyze reads such state (`sys.<attr>`,
+`os.environ`) or imports a module (`__import__`, `import_module`, or a call of one of pyanalyze's
+own importing functions, e.g. `visit_Import`'s `self._try_to_import(alias.name)`), with its kind:
+`sysModules` (a read of the module table: sound only next to an import of the same name —
+`importCall` / `importerCall` rows of the same function), `sysPath`, `environ`, `sysOther`
+(`sys.version_info`, `sys.exc_info`, …: not mutated by checks). The obligation is an *equality*: a new
+read is unregistered, and a removed import call (the name is then looked up in `sys.modules`, which
+an earlier program may or may not have filled) leaves a registered row without a site. -/
+
+def modelledInterpreterReads : List (String × String × String × String) := [
+  ("pyanalyze/__main__.py", "main", "sys.exit", "sysOther"),
+  ("pyanalyze/analysis_lib.py", "make_module", "sys.modules", "sysModules"),
+  ("pyanalyze/arg_spec.py", "<module>", "sys.version_info", "sysOther"),
+  ("pyanalyze/arg_spec.py", "ArgSpecCache._get_type_for_parameter", "sys.modules", "sysModules"),
+  ("pyanalyze/arg_spec.py", "ArgSpecCache._get_type_for_parameter", "sys.modules#1", "sysModules"),
+  ("pyanalyze/ast_annotator.py", "annotate_file", "load_module_from_file(filename, verbose=verbose)", "importerCall"),
+  ("pyanalyze/attributes.py", "AnnotationsContext.get_name", "sys.modules", "sysModules"),
+  ("pyanalyze/attributes.py", "_get_attribute_from_mro", "sys.version_info", "sysOther"),
+  ("pyanalyze/checker.py", "_extract_protocol_members", "sys.version_info", "sysOther"),
+  ("pyanalyze/functions.py", "<module>", "sys.version_info", "sysOther"),
+  ("pyanalyze/importer.py", "import_module", "sys.modules", "sysModules"),
+  ("pyanalyze/importer.py", "load_module_from_file", "import_module(module_path, abspath)", "importCall"),
+  ("pyanalyze/importer.py", "load_module_from_file", "import_module(str(abspath), abspath)", "importCall"),
+  ("pyanalyze/importer.py", "load_module_from_file", "importlib.import_module(parent_module_path)", "importCall"),
+  ("pyanalyze/importer.py", "load_module_from_file", "sys.modules", "sysModules"),
+  ("pyanalyze/importer.py", "load_module_from_file", "sys.modules#1", "sysModules"),
+  ("pyanalyze/importer.py", "load_module_from_file", "sys.path", "sysPath"),
+  ("pyanalyze/name_check_visitor.py", "<module>", "sys.version_info", "sysOther"),
+  ("pyanalyze/name_check_visitor.py", "<module>", "sys.version_info#1", "sysOther"),
+  ("pyanalyze/name_check_visitor.py", "ClassAttributeChecker.check_attribute_reads", "self.unserialize_type(serialized)", "importerCall"),
+  ("pyanalyze/name_check_visitor.py", "ClassAttributeChecker.check_unused_attributes", "self.unserialize_type(serialized)", "importerCall"),
+  ("pyanalyze/name_check_visitor.py", "ClassAttributeChecker.serialize_type", "sys.modules", "sysModules"),
+  ("pyanalyze/name_check_visitor.py", "ClassAttributeChecker.serialize_type", "sys.modules#1", "sysModules"),
+  ("pyanalyze/name_check_visitor.py", "ClassAttributeChecker.unserialize_type", "__import__(module)", "importCall"),
+  ("pyanalyze/name_check_visitor.py", "ClassAttributeChecker.unserialize_type", "sys.modules", "sysModules"),
+  ("pyanalyze/name_check_visitor.py", "ClassAttributeChecker.unserialize_type", "sys.modules#1", "sysModules"),
+  ("pyanalyze/name_check_visitor.py", "NameCheckVisitor", "sys.version_info", "sysOther"),
+  ("pyanalyze/name_check_visitor.py", "NameCheckVisitor", "sys.version_info#1", "sysOther"),
+  ("pyanalyze/name_check_visitor.py", "NameCheckVisitor", "sys.version_info#2", "sysOther"),
+  ("pyanalyze/name_check_visitor.py", "NameCheckVisitor._extract_exception_types", "sys.version_info", "sysOther"),
+  ("pyanalyze/name_check_visitor.py", "NameCheckVisitor._get_import_from_value", "self._try_to_import(name)", "importerCall"),
+  ("pyanalyze/name_check_visitor.py", "NameCheckVisitor._get_module", "self._try_to_import(name)", "importerCall"),
+  ("pyanalyze/name_check_visitor.py", "NameCheckVisitor._get_module", "sys.modules", "sysModules"),
+  ("pyanalyze/name_check_visitor.py", "NameCheckVisitor._get_module", "sys.modules#1", "sysModules"),
+  ("pyanalyze/name_check_visitor.py", "NameCheckVisitor._get_module", "sys.modules#2", "sysModules"),
+  ("pyanalyze/name_check_visitor.py", "NameCheckVisitor._get_module", "sys.modules#3", "sysModules"),
+  ("pyanalyze/name_check_visitor.py", "NameCheckVisitor._load_module", "importer.load_module_from_file(self.filename, import_paths=[str(p) for p in impo", "importerCall"),
+  ("pyanalyze/name_check_visitor.py", "NameCheckVisitor._maybe_record_usages_from_import", "__import__(module_name)", "importCall"),
+  ("pyanalyze/name_check_visitor.py", "NameCheckVisitor._maybe_record_usages_from_import", "sys.modules", "sysModules"),
+  ("pyanalyze/name_check_visitor.py", "NameCheckVisitor._set_alias_in_scope", "sys.version_info", "sysOther"),
+  ("pyanalyze/name_check_visitor.py", "NameCheckVisitor._try_to_import", "__import__(module_name)", "importCall"),
+  ("pyanalyze/name_check_visitor.py", "NameCheckVisitor._visit_single_compare", "sys.platform", "sysOther"),
+  ("pyanalyze/name_check_visitor.py", "NameCheckVisitor._visit_single_compare", "sys.version_info", "sysOther"),
+  ("pyanalyze/name_check_visitor.py", "NameCheckVisitor.compute_function_info", "sys.version_info", "sysOther"),
+  ("pyanalyze/name_check_visitor.py", "NameCheckVisitor.compute_function_info", "sys.version_info#1", "sysOther"),
+  ("pyanalyze/name_check_visitor.py", "NameCheckVisitor.compute_function_info", "sys.version_info#2", "sysOther"),
+  ("pyanalyze/name_check_visitor.py", "NameCheckVisitor.prepare_constructor_kwargs", "sys.exit", "sysOther"),
+  ("pyanalyze/name_check_visitor.py", "NameCheckVisitor.prepare_constructor_kwargs", "sys.modules", "sysModules"),
+  ("pyanalyze/name_check_visitor.py", "NameCheckVisitor.visit_ClassDef", "sys.version_info", "sysOther"),
+  ("pyanalyze/name_check_visitor.py", "NameCheckVisitor.visit_ClassDef", "sys.version_info#1", "sysOther"),
+  ("pyanalyze/name_check_visitor.py", "NameCheckVisitor.visit_ExceptHandler", "sys.version_info", "sysOther"),
+  ("pyanalyze/name_check_visitor.py", "NameCheckVisitor.visit_Import", "self._try_to_import(alias.name)", "importerCall"),
+  ("pyanalyze/name_check_visitor.py", "NameCheckVisitor.visit_ImportFrom", "self._maybe_record_usages_from_import(node)", "importerCall"),
+  ("pyanalyze/name_check_visitor.py", "NameCheckVisitor.visit_ImportFrom", "sys.version_info", "sysOther"),
+  ("pyanalyze/name_check_visitor.py", "NameCheckVisitor.visit_TypeVar", "sys.version_info", "sysOther"),
+  ("pyanalyze/node_visitor.py", "BaseNodeVisitor._check_file_single_arg", "sys.modules", "sysModules"),
+  ("pyanalyze/node_visitor.py", "BaseNodeVisitor._check_file_single_arg", "sys.modules#1", "sysModules"),
+  ("pyanalyze/node_visitor.py", "BaseNodeVisitor._get_all_python_files", "sys.modules", "sysModules"),
+  ("pyanalyze/node_visitor.py", "BaseNodeVisitor._run_on_code", "sys.exit", "sysOther"),
+  ("pyanalyze/node_visitor.py", "BaseNodeVisitor._run_on_code", "sys.stderr", "sysOther"),
+  ("pyanalyze/node_visitor.py", "BaseNodeVisitor.show_error", "sys.stderr", "sysOther"),
+  ("pyanalyze/node_visitor.py", "BaseNodeVisitor.show_error", "sys.stderr#1", "sysOther"),
+  ("pyanalyze/node_visitor.py", "get_files_to_check_from_environ", "os.environ", "environ"),
+  ("pyanalyze/node_visitor.py", "get_files_to_check_from_environ", "os.environ#1", "environ"),
+  ("pyanalyze/options.py", "<module>", "sys.version_info", "sysOther"),
+  ("pyanalyze/safe.py", "<module>", "sys.version_info", "sysOther"),
+  ("pyanalyze/type_evaluation.py", "ConditionEvaluator.visit_Compare", "sys.platform", "sysOther"),
+  ("pyanalyze/type_evaluation.py", "ConditionEvaluator.visit_Compare", "sys.platform#1", "sysOther"),
+  ("pyanalyze/type_evaluation.py", "ConditionEvaluator.visit_Compare", "sys.version_info", "sysOther"),
+  ("pyanalyze/type_evaluation.py", "ConditionEvaluator.visit_Compare", "sys.version_info#1", "sysOther"),
+  ("pyanalyze/typeshed.py", "<module>", "sys.version_info", "sysOther"),
+  ("pyanalyze/typeshed.py", "TypeshedFinder._get_fq_name", "_obj_from_qualname_is(module_name, obj.__qualname__, obj)", "importerCall"),
+  ("pyanalyze/typeshed.py", "TypeshedFinder._parse_call_assignment", "__import__(module)", "importCall"),
+  ("pyanalyze/typeshed.py", "TypeshedFinder._parse_call_assignment", "sys.modules", "sysModules"),
+  ("pyanalyze/typeshed.py", "TypeshedFinder._value_from_info", "self._value_from_info_inner(info, module)", "importerCall"),
+  ("pyanalyze/typeshed.py", "TypeshedFinder._value_from_info_inner", "__import__(module)", "importCall"),
+  ("pyanalyze/typeshed.py", "TypeshedFinder._value_from_info_inner", "__import__(module_path)", "importCall"),
+  ("pyanalyze/typeshed.py", "TypeshedFinder._value_from_info_inner", "self._parse_call_assignment(info, module)", "importerCall"),
+  ("pyanalyze/typeshed.py", "TypeshedFinder._value_from_info_inner", "sys.modules", "sysModules"),
+  ("pyanalyze/typeshed.py", "TypeshedFinder._value_from_info_inner", "sys.modules#1", "sysModules"),
+  ("pyanalyze/typeshed.py", "_obj_from_qualname_is", "__import__(module_name)", "importCall"),
+  ("pyanalyze/typeshed.py", "_obj_from_qualname_is", "sys.modules", "sysModules"),
+  ("pyanalyze/typeshed.py", "_obj_from_qualname_is", "sys.modules#1", "sysModules"),
+  ("pyanalyze/value.py", "<module>", "sys.version_info", "sysOther"),
+  ("pyanalyze/value.py", "<module>", "sys.version_info#1", "sysOther")
+]
+
+def interpreterReadsRegistered (scanned : List (String × String × String × String)) : Bool :=
+  scanned.all (fun s => modelledInterpreterReads.contains s) &&
+  modelledInterpreterReads.all (fun m => scanned.contains m)
+
 /-! ### Classifying a textual difference between two renderings of the same diagnostic
 
 A message is cut into tokens at the separators of lists and unions; two renderings *differ by
